@@ -124,6 +124,7 @@ func runC12(c *fw.Case) {
 		feat = "/compressed"
 	}
 	units := int64(0)
+	var keptSeq [][]byte
 
 	// judge runs both readers over a damaged image. okUpTo = number of leading records that must be
 	// returned unchanged; failAt = index of the record that must NOT be returned as data (-1: none);
@@ -139,6 +140,7 @@ func runC12(c *fw.Case) {
 			err = rd.Open()
 			if err == nil {
 				i := 0
+				keptSeq = keptSeq[:0]
 				for {
 					got, err := rd.ReadNext()
 					if err != nil {
@@ -160,6 +162,7 @@ func runC12(c *fw.Case) {
 						c.Violate("recordio/"+kind+"/seq/wrong-record"+feat, "%s %s: ReadNext #%d = %s want %s", cfg, what, i, fw.Hex(got), fw.Hex(recs[i]))
 						break
 					}
+					keptSeq = append(keptSeq, got)
 					i++
 					if i > len(recs)+1 {
 						break
@@ -169,6 +172,15 @@ func runC12(c *fw.Case) {
 				c.Violate("recordio/"+kind+"/seq/open-failed"+feat, "%s %s: Open failed: %v", cfg, what, err)
 			}
 			_ = rd.Close()
+			// the returned slices were kept, not copied: they must still hold the genuine records after the call that
+			// met the cut (or EOF) and after Close
+			for k, g := range keptSeq {
+				if !sameRec(g, recs[k]) {
+					c.Violate("recordio/"+kind+"/seq/returned-record-changed-later"+feat, "%s %s: the slice ReadNext #%d returned read %s then and reads %s after the later calls and Close", cfg, what, k, fw.Hex(recs[k]), fw.Hex(g))
+					break
+				}
+			}
+			c.Obs("kept_returned_slices_compared_again", int64(len(keptSeq)))
 			if units%2 == 0 {
 				// the deferred-plus-explicit Close idiom: the second call may say "already closed", and no reader opened
 				// afterwards may be affected by it
